@@ -89,6 +89,7 @@ def work_contract(job):
         rec['path_outcomes'] = sorted(set(p['outcome'] for p in res['paths']))
         rec['gen_s'] = res['gen_s']
         rec['trivial'] = eng.trivial
+        fallback_spent, fallback_budget = 0.0, (90.0 if tier == 'quick' else 1500.0)     # cvc5 seconds per contract (shard) on obligations z3 left open
         direct_hit = {}       # clause name -> replayed failure (input-independent replays are run once per clause)
         for oi, o in enumerate(res['obls']):
             if oi % nshards != shard:
@@ -99,7 +100,8 @@ def work_contract(job):
                 orec['path'] = o.path_id
                 rec['obls'].append(orec)
                 continue
-            d = discharge(o, tier, second_opinion=(tier == 'thorough'))
+            d = discharge(o, tier, second_opinion=(tier == 'thorough'), cvc5_ok=(fallback_spent < fallback_budget))
+            fallback_spent += d.get('cvc5_fallback_seconds', 0) or 0
             orec = {'name': o.name, 'kind': o.kind, 'status': d['status'], 'backend': d['backend'], 'seconds': round(d['seconds'], 4),
                     'quantified': d['quantified'], 'path': o.path_id, 'props': props_of_obl(o.name, c.props), 'size': o.size(),
                     'lineno': o.lineno, 'cvc5': d.get('cvc5')}
